@@ -2,7 +2,7 @@
 """regenerates /verif/MANIFEST.json (kept valid at all times)"""
 import json, subprocess
 props = [json.loads(l) for l in open('/verif/properties.jsonl')]
-GEN = "all sequential operator families (map/filter/scan/take/skip over a puppet, merge!/concat!/combine! of 1-3 puppets, merge! with late greeters, flatten over an outer puppet of inner puppets, share with 1-2 probe sinks; variants where the sink disposes with Error)"
+GEN = "all sequential operator families (map/filter/scan/take/skip over a puppet, merge!/concat!/combine! of 1-3 puppets, merge! with late greeters, flatten over an outer puppet of inner puppets, share with 1-2 probe sinks; variants where the sink disposes with Error; re-entrant variants where a sink makes an upstream emit/end/fail/greet from inside any of its handlers; sinks acting twice per handler; two subscriptions of one output; compositions of operators; the crate's sources from_iter and interval by themselves; degenerate parameters take(0), skip(0), merge!() and concat!() of no member)"
 claimed = {
  "C01": GEN,
  "C02": GEN + ", failures offered at every decision point",
@@ -10,7 +10,7 @@ claimed = {
  "C04": GEN + "; per upstream subscription clauses double_stop, after_self_end, msg_after_stop, orphan, resubscribed, subscribe_after_over, error_not_relayed",
  "C05": GEN + " with member failure offered at every decision point",
  "C06": "pipelines from_iter(xs) |> stages |> for_each(f) over the stage catalogue (map, filter, scan, take, skip, concat! on either side, map-then-flatten), all inputs over a small alphabet up to a length bound and the unbounded iterator, judged against the list semantics Sem (TLA+), with next()-laziness clauses",
- "C07": "unary operator families map/filter/scan/take/skip over one puppet, all sink policies",
+ "C07": "unary operator families map/filter/scan/take/skip over one puppet, all sink policies, re-entrant emission, chains of unary operators, two subscriptions of one scan/skip/take instance",
  "C08": "merge! of 1-3 puppets incl. late greeters",
  "C09": "concat! of 1-3 puppets, any-mode and pull-mode members",
  "C10": "combine! of 1-3 puppets",
@@ -21,7 +21,7 @@ claimed = {
  "C15": "from_iter over iterators of length 0-3 and the unbounded one, 1-2 probe sinks, every pull/dispose pattern",
  "C16": "interval with periods 1-2, 1-3 subscriptions, mock Nurse+Timer with virtual clock, spawn failures Spawn/Closed",
  "C18": "merge! and combine! of 2-3 members delivering from 2-3 threads (each a few data then Terminate, at most one failing), greetings done sequentially first: TLC explores every interleaving of the model at the granularity of the shared-state accesses (one label per access, the same points at which the code built with --cfg callbag_verif calls the scheduler hook) with monitor invariants; TLC-simulated schedules are replayed on the real code under the deterministic scheduler and the traces compared; preemption-bounded enumeration and random schedules on the real code, every trace judged by the TLA+ predicate",
- "C19": "take(n), n in 1..3, over a puppet delivering from 2-3 threads and over merge! of two member threads; same method as C18",
+ "C19": "take(n), n in 1..3, over a puppet delivering from 2-3 threads and over merge! / combine! of two member threads; same method as C18",
  "C20": "all sequential families, sources, interval and pipelines replayed on three builds/configurations of the real code (feature off; on without subscriber; on with a TRACE subscriber); the three traces (including closure-invocation events) must be equal event for event",
  "C17": GEN + "; every expect/unwrap/panic! site is a branch of the model",
 }
